@@ -11,6 +11,7 @@ package backend
 import (
 	"io/fs"
 	"os"
+	"path/filepath"
 
 	"github.com/versity/versitygw/s3err"
 )
@@ -54,6 +55,13 @@ func MkdirAll(path string, uid, gid int, doChown bool, dirPerm fs.FileMode) erro
 		if err != nil {
 			return err
 		}
+	} else if !filepath.IsAbs(path) {
+		// The first element of a relative path is a bucket directory (the
+		// backends work relative to the gateway root). Buckets are made by
+		// CreateBucket only: one that is not there was deleted while this
+		// request was under way, and making it again here would bring back
+		// a bucket without owner and ACL under an acknowledged DeleteBucket.
+		return s3err.GetAPIError(s3err.ErrNoSuchBucket)
 	}
 
 	// Parent now exists; invoke Mkdir and use its result.
